@@ -32,7 +32,8 @@ void readLine_turn(int* m_p, int* n_p)
 __CPROVER_requires(__CPROVER_is_fresh(m_p, sizeof(int)) && __CPROVER_is_fresh(n_p, sizeof(int)) && 0 <= *m_p && *m_p <= 1000000000 && g_cap >= 16 && g_cap > *m_p && g_cap <= 1100000000 && g_done == 0)
 /* each turn either ends the line (newline found: the "\n" and one preceding "\r" are cut, nothing else), reports end of file, or appends >= 1 character and goes on */
 __CPROVER_ensures(g_done == 0 ==> (*m_p == __CPROVER_old(*m_p) + g_L && !g_nl))
-__CPROVER_ensures(g_done == 2 ==> (g_nl && *n_p >= 0 && (g_L >= 2 ? *n_p == __CPROVER_old(*m_p) + g_L - 1 - (g_cr ? 1 : 0) : (*n_p == __CPROVER_old(*m_p) || *n_p == __CPROVER_old(*m_p) - 1))))
+/* (the character before the newline may be the last one of the PREVIOUS chunk: a CR LF pair split by the 254-character chunk boundary is still one line end) */
+__CPROVER_ensures(g_done == 2 ==> (g_nl && *n_p >= 0 && *n_p == __CPROVER_old(*m_p) + g_L - 1 - ((g_cr && __CPROVER_old(*m_p) + g_L - 1 > 0) ? 1 : 0)))
 __CPROVER_assigns(*m_p, *n_p, g_cap, g_at, g_L, g_nl, g_cr, g_len, g_ret, g_done)
 {
   int m = *m_p, n = *n_p; const int chunk = 255;
